@@ -21,6 +21,9 @@ func (t *tr) globals() string {
 		b.WriteString("(* " + msg + " *)\n")
 		t.structsBad = msg
 	}
+	b.WriteString("Definition atoi_go (s : bytes) : Z * option err := match atoi s with Some v => (v, None) | None => (0%Z, Some (EStd 11 [])) end.\n")
+	b.WriteString("Definition lookup_go (raw : bytes) : suite_cfg * bool := match lookup raw known_suites with Some c => (c, true) | None => (zero_cfg, false) end.\n")
+	b.WriteString("Definition idxS (l : list bytes) (i : Z) : res bytes := if (i <? 0)%Z then Pnc else match nth_error l (Z.to_nat i) with Some b => Val b | None => Pnc end.\n")
 	b.WriteString("Definition b32_decode_go (s : bytes) : bytes * option err :=\n  let '(bs, o) := b32_decode_string s in (bs, match o with Some off => Some (EBase32 off) | None => None end).\n\n")
 	for _, f := range t.pkg.Syntax {
 		for _, d := range f.Decls {
